@@ -301,7 +301,7 @@ impl Prop for C18 {
     }
     const ID: &'static str = "C18";
     fn rule() -> &'static str {
-        "round trip: arrays of shapes (0,0), 1xN, Nx1 and up to 6x6 with element types u32, i64, (), String (arbitrary Unicode incl. quotes, backslashes, control characters, surrogate-adjacent code points), Option<u32>, Vec<u8>, nested TooDee<u32>, serialised and deserialised through to_string/from_str, to_vec/from_slice, to_writer/from_reader and to_value/from_value; views and mutable views (strided windows of u32 parents) must round-trip to TooDee::from(view). Exhaustive over all shapes (0..=6)^2 x 6 element types x 4 transports and all windows of a 4x4 parent, random cell contents. Oracle: decoded == original (dimensions and every cell). No floats (NaN / precision would make the oracle flaky). Non-trivial = a non-empty array through from_reader / from_value, or an empty array, or a strided view, or a String needing escapes. Distinct = distinct case."
+        "round trip: arrays of shapes (0,0), 1xN, Nx1 and up to 6x6 with element types u32, i64, (), String (arbitrary Unicode incl. quotes, backslashes, control characters, surrogate-adjacent code points), Option<u32>, Vec<u8>, nested TooDee<u32>, serialised and deserialised through to_string/from_str, to_vec/from_slice, to_writer/from_reader and to_value/from_value; views and mutable views (strided windows of u32 parents) must round-trip to TooDee::from(view). Exhaustive over all shapes (0..=6)^2 x 6 element types x 4 transports and all windows of a 4x4 parent, random cell contents. Oracle: decoded == original (dimensions and every cell). No floats (NaN / precision would make the oracle flaky). Non-trivial = a non-empty array through from_reader / from_value, or an empty array, or a strided view, or a String needing escapes. Distinct = distinct case. Also: cells of u128 / i128 / BTreeMap<u32,String> / (char, Result, [i16;2], Option<bool>); arrays of > 2^18 u32, > 2^17 i64, > 2^16 String cells and () arrays with a dimension beyond 65535 through every transport; arrays that went through structural operations first (spare capacity, shifted buffers); round trips performed after documents that must be rejected."
     }
     fn bound(_t: Tier) -> String {
         "all shapes (0..=6)^2 x 6 element types x 4 transports; all window embeddings with margins in {0,1,2}^4 of shapes (0..=3)^2 x view/view_mut x 4 transports".into()
@@ -847,7 +847,7 @@ impl Prop for C19 {
     type Case = Doc;
     const ID: &'static str = "C19";
     fn rule() -> &'static str {
-        "documents generated from a grammar: a consistent base document (dims 0..6, data of the right length, element type u32 / String / Option<u32> / the zero-sized ()) with 1-2 mutations from {dimension from the pool 0, small, 2^32, 2^63, 2^64-1, 2^62+1, negative, fractional, exponent, > u64, string, null, bool, array, object; data length +-; wrong element type; data not an array; field dropped; field duplicated (also a second different data); unknown keys; exactly one zero dimension with empty data; dimension pairs whose product wraps to exactly the data length (fixed pairs and exact factorisations a*b = 2^64+k for k < 48 with every split of the bit lengths); non-object top level}, fields reordered, 3 whitespace styles, 4 transports; plus an exhaustive list of every subset / order of the three fields with fixed values. Oracle: never panics; Ok(t) => C01 shape invariant and there is an occurrence of each field in the document that t's dimensions / cells equal exactly (hence an accepted document cannot have overflowing, mismatching or one-zero dimensions); non-object documents are never accepted, except that a three-element array is read as the positional form [num_cols, num_rows, data] and held to the same standard. Non-trivial = an object containing all three fields. Distinct = distinct case."
+        "documents generated from a grammar: a consistent base document (dims 0..6, data of the right length, element type u32 / String / Option<u32> / the zero-sized ()) with 1-2 mutations from {dimension from the pool 0, small, 2^32, 2^63, 2^64-1, 2^62+1, negative, fractional, exponent, > u64, string, null, bool, array, object; data length +-; wrong element type; data not an array; field dropped; field duplicated (also a second different data); unknown keys; exactly one zero dimension with empty data; dimension pairs whose product wraps to exactly the data length (fixed pairs and exact factorisations a*b = 2^64+k for k < 48 with every split of the bit lengths); non-object top level}, fields reordered, 3 whitespace styles, 4 transports; plus an exhaustive list of every subset / order of the three fields with fixed values. Oracle: never panics; Ok(t) => C01 shape invariant and there is an occurrence of each field in the document that t's dimensions / cells equal exactly (hence an accepted document cannot have overflowing, mismatching or one-zero dimensions); non-object documents are never accepted, except that a three-element array is read as the positional form [num_cols, num_rows, data] and held to the same standard. Non-trivial = an object containing all three fields. Distinct = distinct case. Also: unknown keys from a pool (near misses of the field names, a multi-byte character at every byte offset 24..40 of a long key, lone-surrogate escapes written verbatim, a byte that is not UTF-8 in the byte transports); a field stated twice with different values (null / another number / another array, before or after) must never be accepted."
     }
     fn bound(_t: Tier) -> String {
         "exhaustive part: all ordered selections (with duplication up to 4 fields) from {num_cols, num_rows, data, unknown} x 6 dimension / data variants x 4 transports".into()
